@@ -2,6 +2,7 @@ package compiler
 
 import (
 	"fmt"
+	"sort"
 
 	"github.com/grafana/cog/internal/ast"
 )
@@ -26,8 +27,23 @@ func (pass *FieldsSetDefault) processObject(_ *Visitor, _ *ast.Schema, object as
 		return object, nil
 	}
 
+	// Field references are matched case-insensitively: several of them can
+	// designate the same field. They are applied in a fixed (sorted) order to
+	// not depend on map iteration order.
+	refNames := make([]string, 0, len(pass.DefaultValues))
+	refsByName := make(map[string]FieldReference, len(pass.DefaultValues))
+	for fieldRef := range pass.DefaultValues {
+		refName := fieldRef.Package + "." + fieldRef.Object + "." + fieldRef.Field
+		refNames = append(refNames, refName)
+		refsByName[refName] = fieldRef
+	}
+	sort.Strings(refNames)
+
 	for i, field := range object.Type.AsStruct().Fields {
-		for fieldRef, value := range pass.DefaultValues {
+		for _, refName := range refNames {
+			fieldRef := refsByName[refName]
+			value := pass.DefaultValues[fieldRef]
+
 			if !fieldRef.Matches(object, field) {
 				continue
 			}
